@@ -198,6 +198,60 @@ def rule_r6b(text, veciter=()):
         n += 1
 
 
+R11_DESC = ('R11', 'rayon parallel map collected into a Result<Vec<_>>: `repeatn(S, N).zip(XS).map(|(a, b)| { BODY; Ok(E) }).collect()` -> the sequential loop over XS '
+            'running the same closure body (`?` propagates the first error, `Ok(E)` pushes E). rayon\'s contract gives the same per-element results in index order; what the '
+            'interleaving of the closures adds (the shared id generator) is kept as the explicit distinctness assumption of C13')
+
+
+def rule_r11(text):
+    n = 0
+    while True:
+        mk = rustlex.mask(text)
+        m = re.search(r'\brepeatn\(', mk)
+        if not m:
+            return text, n
+        op = m.end() - 1
+        cp = rustlex.match_close(mk, op)
+        args = text[op + 1:cp]
+        seed = args[:args.rindex(',')].strip()
+        mz = re.match(r'\s*\.zip\(', mk[cp + 1:])
+        if not mz:
+            raise ExtractError('R11: repeatn(..) without .zip(..)')
+        zo = cp + 1 + mz.end() - 1
+        zc = rustlex.match_close(mk, zo)
+        xs = text[zo + 1:zc].strip()
+        mm = re.match(r'\s*\.map\(\|\((\w+), (\w+)\)\| \{', mk[zc + 1:])
+        if not mm:
+            raise ExtractError('R11: unsupported closure shape after .zip(..)')
+        bo = zc + 1 + mm.end() - 1
+        bc = rustlex.match_close(mk, bo)
+        body = text[bo + 1:bc]
+        mc = re.match(r'\s*\)\s*\.collect\(\)', mk[bc + 1:])
+        if not mc:
+            raise ExtractError('R11: .map(..) not followed by .collect()')
+        end = bc + 1 + mc.end()
+        mb = re.search(r'\bOk\((.*)\)\s*$', body, re.S)
+        mbk = rustlex.mask(body)
+        # the closure's tail expression must be a top-level `Ok(..)`
+        k = mbk.rstrip().rfind('Ok(')
+        while k > 0 and mbk[:k].count('{') != mbk[:k].count('}'):
+            k = mbk.rfind('Ok(', 0, k)
+        if k < 0 or rustlex.match_close(mbk, k + 2) != len(mbk.rstrip()) - 1:
+            raise ExtractError('R11: closure body does not end with Ok(..)')
+        inner = body[k + 3:len(body.rstrip()) - 1]
+        body2 = body[:k] + 'out__.push(' + inner + ');\n'
+        a, b_ = mm.group(1), mm.group(2)
+        ls = text.rfind('\n', 0, m.start()) + 1
+        indent = re.match(r'[ \t]*', text[ls:]).group(0)
+        mt = re.search(r'->\s*Result<Vec<(.+?)>>\s*\{', text[:m.start()], re.S)
+        ety = (': Vec<%s>' % mt.group(1)) if mt else ''
+        new = ('{\n%s    let seed__: u64 = %s;\n%s    let mut out__%s = Vec::new();\n%s    let mut par__: usize = 0;\n%s    while par__ < %s.len() {\n'
+               '%s        let %s = seed__;\n%s        let %s = &%s[par__];\n%s        par__ += 1;%s%s    }\n%s    Ok(out__)\n%s}'
+               % (indent, seed, indent, ety, indent, indent, xs, indent, a, indent, b_, xs, indent, body2, indent, indent, indent))
+        text = text[:m.start()] + new + text[end:]
+        n += 1
+
+
 R6D_DESC = ('R6d', '`let [mut] X = loop { .. break E; .. };` -> `let X__brk; loop { .. { X__brk = E; break; } .. } let [mut] X = X__brk;` '
             '(Verus has no break-with-value; definitional)')
 
@@ -230,6 +284,10 @@ def apply_rules(text, skip=(), veciter=()):
         text, n = rx.subn(rep, text)
         if n:
             fired[rid] = n
+    if 'R11' not in skip:
+        text, n = rule_r11(text)
+        if n:
+            fired['R11'] = n
     if 'R6d' not in skip:
         text, n = rule_r6d(text)
         if n:
@@ -250,7 +308,7 @@ def apply_rules(text, skip=(), veciter=()):
 
 
 def rule_table():
-    return [(r[0], r[1]) for r in RULES] + [R6D_DESC, R6B_DESC, R9_DESC, (R6A[0], R6A[1])]
+    return [(r[0], r[1]) for r in RULES] + [R11_DESC, R6D_DESC, R6B_DESC, R9_DESC, (R6A[0], R6A[1])]
 
 
 # ---------------------------------------------------------------------------------------------
@@ -265,6 +323,7 @@ class Block:
         self.loopend = {}
         self.substs = []   # (old, new, count)
         self.hints = []    # (where, anchor, text)
+        self.tmpctx = None      # expression naming the view a new TmpNodes is created under (rule R14; default `wtxn`)
         self.veciter = []       # identifiers that are Vecs: `for P in NAME.iter()` becomes an index loop (R6h)
         self.ghostparams = []   # declarations appended to the parameter list (erased at run time)
         self.ghostargs = []     # (callee, expr) appended to every call of `callee` in the body
@@ -366,6 +425,8 @@ def parse_template(path, units_dir):
                             tgt.append(lines[i])
                         i += 1
                     b.substs.append(('\n'.join(old), '\n'.join(new), cnt)); cur = None
+                elif ln.startswith('//@tmpctx '):
+                    b.tmpctx = ln[len('//@tmpctx '):].strip(); cur = None
                 elif ln.startswith('//@veciter '):
                     b.veciter += ln.split()[1:]; cur = None
                 elif ln.startswith('//@ghostparam '):
@@ -376,7 +437,7 @@ def parse_template(path, units_dir):
                         raise ExtractError('%s: bad ghostarg line: %s' % (path, ln))
                     b.ghostargs.append((m.group(1), m.group(2))); cur = None
                 elif ln.startswith('//@hint '):
-                    m = re.match(r'//@hint (afterstmt|after|before)(?:#(\d+))? <<<(.*)>>>\s*$', ln)
+                    m = re.match(r'//@hint (afterstmt|after|before|start)(?:#(\d+))? <<<(.*)>>>\s*$', ln)
                     if not m:
                         raise ExtractError('%s: bad hint line: %s' % (path, ln))
                     h = [m.group(1) + ('#' + m.group(2) if m.group(2) else ''), m.group(3), []]
@@ -501,7 +562,13 @@ def extract_block(b: Block, snapshot: str):
     raw = src[loc['start']:loc['body_close'] + 1]
     src_line0 = rustlex.line_of(src, loc['start'])
     src_line1 = rustlex.line_of(src, loc['body_close'])
+    if not any('exec_allows_no_decreases_clause' in a for a in b.attrs) and not b.stub:
+        # partial correctness everywhere: termination is never claimed unless a decreases clause is listed in the evidence
+        b.attrs = list(b.attrs) + ['#[verifier::exec_allows_no_decreases_clause]']
     text, fired = apply_rules(raw, skip=b.noglobal, veciter=b.veciter)
+    if b.tmpctx:
+        text = re.sub(r'(TmpNodes::new_g_\()wtxn\)', r'\g<1>%s)' % b.tmpctx, text)
+        text = re.sub(r'(TmpNodes::new_in_g_\(\w+, )wtxn\)', r'\g<1>%s)' % b.tmpctx, text)
     if not b.stub:
         text, nin = strip_inner_items(text)
         if nin:
@@ -544,6 +611,13 @@ def extract_block(b: Block, snapshot: str):
         if '#' in where:
             where, nth = where.split('#')
             nth = int(nth)
+        if where == 'start':
+            # right after the opening brace of the function body (ghost snapshots of the entry state: no anchor to lose)
+            mk = rustlex.mask(text)
+            mf = re.search(r'\bfn\s+%s\b' % re.escape(b.fn), mk)
+            ob = rustlex.next_open_brace(mk, mf.end())
+            text = text[:ob + 1] + '\n' + '\n'.join(lines) + text[ob + 1:]
+            continue
         c = text.count(anchor)
         if where == 'afterstmt' and c == 1:
             # after the end of the statement that contains the anchor (next `;` at bracket depth 0)
